@@ -52,9 +52,12 @@ end
 
 /-! ### Hash congruence -/
 
-/-- The one law assumed of Python's `hash`: `==` atoms hash equal. -/
+/-- The two laws assumed of Python's `hash`: `==` atoms hash equal; the hash of a `frozenset` does
+not depend on the order in which its items are listed (`frozenset([a, b]) == frozenset([b, a])`).
+The second law is used only to pass from a dict to the dict with sorted keys (`hash_canon`). -/
 structure HashOk (H : PyHash) : Prop where
   atom_congr : ∀ a b : Atom, atomEq a b = true → H.atom a = H.atom b
+  fset_perm : ∀ l l' : List Int, l.Perm l' → H.fset l = H.fset l'
 
 theorem evalHashList_reh (H : PyHash) (ts : List HTerm) :
     evalHashList H (ts.map .reh) = (evalHashList H ts).map H.int := by
